@@ -7,6 +7,24 @@
 namespace vh
 {
 using namespace multitensor;
+// Tensor::get_index is a protected helper: it is observed when it exists under that name; otherwise the position is the one the public
+// accessor delivers (address arithmetic), which is what the layout contract is about
+template <class T, class = void>
+struct has_get_index : std::false_type
+{
+};
+template <class T>
+struct has_get_index<T, std::void_t<decltype(std::declval<T &>().get_index(size_t{}, size_t{}, size_t{}))>> : std::true_type
+{
+};
+template <class T>
+size_t position_of(T &t, size_t i, size_t j, size_t a, const double *base)
+{
+    if constexpr (has_get_index<T>::value)
+        return t.get_index(i, j, a);
+    else
+        return (size_t)(&t(i, j, a) - base);
+}
 // ------------------------------------------------------------------ LAYOUT
 void do_layout(Toks &tk, std::ostream &os)
 {
@@ -20,7 +38,7 @@ void do_layout(Toks &tk, std::ostream &os)
             for (size_t i = 0; i < R; i++)
             {
                 a1 << (&t(i, j, a) - base) << " ";
-                a2 << t.get_index(i, j, a) << " ";
+                a2 << position_of(t, i, j, a, base) << " ";
             }
     os << id << " idx " << a1.str() << "\n";
     os << id << " cxx " << a2.str() << "\n";
